@@ -133,8 +133,8 @@ Definition tl_lift (f : str -> str) (m : tlexer) : tlexer := (f (fst m), snd m).
 
 Fixpoint skip_spaces (s : str) : str :=                 (* for lexer.SkipByte(' ') { } *)
   match s with
-  | 32 :: t => skip_spaces t
-  | _ => s
+  | c :: t => if c =? 32 then skip_spaces t else s
+  | [] => s
   end.
 
 Record varassign : Type := mk_varassign {
@@ -150,7 +150,7 @@ Record varassign : Type := mk_varassign {
 (* matchVarassign(line, text, &splitResult) for line.raw[0].Orig() = text;
    `first` is what Parse computed before: split(text, true) *)
 Definition match_varassign (text : str) (first : split_result) : res (option varassign) :=
-  let commented := negb (nonempty (sr_main first)) && sr_has_comment first in
+  let commented := negb (nonempty (sr_main first)) && sr_has_comment first && has_prefix [35] text in
   let start :=
     if commented then
       let '(hs, crest) := next_bytes is_hspace (sr_comment first) in
